@@ -1893,6 +1893,9 @@ pub fn run_case(case: &RcCase) -> RcRun {
         }
     });
     counters.insert("steps".into(), summary.steps);
+    for (t, n) in summary.steps_by.iter().enumerate() {
+        counters.insert(format!("steps_t{}", t), *n);
+    }
     counters.insert("switches".into(), summary.switches);
     counters.insert("mid_op_parks".into(), summary.mid_op_parks);
     counters.insert("epochs_total".into(), (epoch1 - epoch0) as u64);
